@@ -17,6 +17,7 @@ whole-source structural controls.
 from __future__ import annotations
 
 import ast
+import builtins
 import copy
 from dataclasses import dataclass
 from fractions import Fraction
@@ -168,13 +169,21 @@ class LinInterp(OrderInterp):
 
     # ---------------------------------------------------------------- names / calls
     def unknown_name(self, ident: str, node: ast.AST) -> Any:
-        if ident in ("abs", "reversed"):
+        if ident in ("abs", "reversed", "all", "any"):
             return ("builtin", ident)
-        return super().unknown_name(ident, node)
+        got = super().unknown_name(ident, node)
+        if isinstance(got, Obj) and got.cls.startswith("ext:") and hasattr(builtins, ident):
+            # the base interpreter would model the call as an opaque (always truthy) record
+            raise AnalysisError(f"Python builtin {ident}() is not modelled by the order-domain interpreter "
+                                f"(line {getattr(node, 'lineno', '?')})")
+        return got
 
     def builtin(self, name: str, pos: list[Any], kw: dict[str, Any], node: ast.AST) -> Any:
         if name == "sorted" and set(kw) - {"reverse"}:
             raise AnalysisError("sorted() with a key function: the proposals' own order is not used")
+        if name in ("all", "any") and len(pos) == 1 and not kw:
+            items = [self.truth(x, node) for x in self.iterate(pos[0], node)]
+            return all(items) if name == "all" else any(items)
         if name == "reversed" and len(pos) == 1 and not kw:
             return list(reversed(list(self.iterate(pos[0], node))))
         if name == "abs" and len(pos) == 1 and not kw:
